@@ -517,6 +517,9 @@ MATRIX_PREFIX = [
     ['create_trial', 'o0', 's0', {'state': 'REQUESTED', 'final': None,
                                   'client_id': '', 'k': 4, 'md': []}],  # 5
     ['update_md', 'o0', 's0', [['study', ':a', 'k', 'v'], [1, ':a', 'k', 'v']]],
+    # a sibling study of the same owner, used by the same worker ids
+    ['create_study', 'o0', 's1'],
+    ['suggest', 'o0', 's1', 'w1', 1],
 ]
 
 
@@ -527,6 +530,7 @@ def _matrix_variants(focus):
       ['suggest', 'o0', 's0', 'w2', 1],
       ['suggest', 'o0', 's0', 'w2', 2],
       ['suggest', 'o0', 's0', 'w1', 3],
+      ['suggest', 'o0', 's1', 'w2', 1],   # same worker id, sibling study
       ['create_trial', 'o0', 's0', {'state': 'REQUESTED', 'final': None,
                                     'client_id': '', 'k': 3, 'md': []}],
       ['complete', 'o0', 's0', focus, comp],
